@@ -263,16 +263,20 @@ func (r *Rtmp2RtspRemuxer) remux(msg base.RtmpMsg) {
 			var payload []byte
 			if msg.VideoCodecId() == base.RtmpCodecIdHevc && msg.IsEnchanedHevcNalu() {
 				index := msg.GetEnchanedHevcNaluIndex()
+				if index > len(msg.Payload) {
+					Log.Warnf("rtmp msg too short, ignore. header=%+v, payload=%s", msg.Header, hex.Dump(msg.Payload))
+					return
+				}
 				payload = msg.Payload[index:]
 			} else {
 				payload = msg.Payload[5:]
 			}
 
 			if RtspRemuxerAddSpsPps2KeyFrameFlag {
-				if msg.IsAvcKeyNalu() && r.sps != nil && r.pps != nil {
+				if msg.IsAvcKeyNalu() && r.sps != nil && r.pps != nil && len(msg.Payload) > 9 {
 					payload = h2645.JoinNaluAvcc(r.sps, r.pps, msg.Payload[9:])
 				}
-				if msg.IsHevcKeyNalu() && r.vps != nil && r.sps != nil && r.pps != nil {
+				if msg.IsHevcKeyNalu() && r.vps != nil && r.sps != nil && r.pps != nil && len(msg.Payload) > 9 {
 					payload = h2645.JoinNaluAvcc(r.vps, r.sps, r.pps, msg.Payload[9:])
 				}
 			}
